@@ -155,6 +155,9 @@ func main() {
 				n = 5
 			}
 			for i := 0; i < n; i++ {
+				if time.Until(e.Deadline) < budget/2 {
+					e.Deadline = time.Now().Add(budget) // confirmation replays get their own budget
+				}
 				got := res.Rejudge(v)
 				found := false
 				for _, g := range got {
